@@ -216,7 +216,11 @@ def nonlinear_constraints(rng, n, x0, count=None, forms=("nlc",),
         v0 = np.array([base_component(c, n)(np.asarray(x0, float))
                        for c in comps])
         ent = {"comps": comps, "form": form}
-        if form == "nlc":
+        if form == "nlc" and rng.random() < 0.06:
+            # vacuous constraint object: no finite limit at all
+            ent["lb"], ent["ub"] = [-INF] * m, [INF] * m
+            ent["kinds"] = ["none"] * m
+        elif form == "nlc":
             lo, hi, ks = limits(rng, m, v0, kinds)
             if rng.random() < 0.25 and m > 1 and len(set(ks)) == 1 \
                     and ks[0] in ("upper", "lower"):
@@ -270,6 +274,8 @@ def options(rng, n, maxfev=(30, 160), allow=("scale", "nb_points", "radius",
             o["history_size"] = int(rng.integers(1, 80))
     if "tol" in allow and rng.random() < 0.15:
         o["feasibility_tol"] = float(10.0 ** rng.uniform(-10, -2))
+    if rng.random() < 0.08:
+        o["disp"] = True            # progress printing (stdout is captured)
     return o
 
 
@@ -364,6 +370,8 @@ def general(rng, *, n=None, con=None, bound_patterns=None, x0_where=None,
         spec["callback"] = callback(rng)
     if with_faults:
         spec["faults"] = fault_plan(rng, spec)
+    if rng.random() < 0.08:
+        spec["scribble"] = True     # user functions overwrite their argument
     spec["con_kind"] = con
     return spec
 
